@@ -4,7 +4,7 @@ from xvlib import log
 from props.common import *
 import props.reclcommon as rc
 
-PROPERTY_FILES = ['Properties_C01_ebr', 'Properties_C01_hp', 'Properties_C01_qsbr', 'Properties_C01_lfrc', 'Properties_C01_he', 'Properties_C01_gebr']
+PROPERTY_FILES = ['Properties_C01_ebr', 'Properties_C01_hp', 'Properties_C01_qsbr', 'Properties_C01_lfrc', 'Properties_C01_he', 'Properties_C01_gebr', 'Properties_C01_stamp']
 THEOREM_NOTES = {
     'scope': 'the theorems are about a step-level model of epoch_based<> (generic_epoch_based with its default traits: critical-region entry/exit, global epoch update scanning the thread block list, three retire lists, orphan hand-over at thread exit and adoption, guard_ptr acquire/reset/reclaim) driven by the generic client of harness/h_recl.cpp, for any number of threads, cells, guard slots, programs and schedules: a guarded node is never freed and no dereference hits a destroyed node (C01), the epoch window argument, a retired node is in exactly one place and freed at most once also across thread exit (C02), and seven solo flush operations free everything at quiescence. Tied to the code by trace correspondence (harness/h_ebr.cpp). and of hazard_pointer<static_strategy<3>> (record list, slot free list, acquire with publish + fence + re-validation, retire, scan with adoption of abandoned nodes, thread exit): a node protected by a validated guard is in a hazard slot and never freed, exactly-once bookkeeping across thread exit, and (partial: from the start of the scan) the flush frees everything at quiescence; tied by trace correspondence (harness/h_hp.cpp); and of quiescent_state_based (regions, quiescent states, epoch advance, orphans with their target epoch, thread exit with the repaired target computation): guarded nodes never freed, the epoch window, an orphan created at epoch g is freed only at g+2 (the wrong target g+1 is refuted), exactly-once across orphan hand-over, four solo flush operations free everything when every other record is released (with an idle registered thread nothing is freed: refuted as stated, that is the documented QSBR behaviour); tied by trace correspondence (harness/h_qsbr.cpp). acquire_if_equal, guard copies / moves, the dynamic strategy and the other reclaimers (hazard_eras, NEBR/DEBRA and the other generic_epoch_based configurations, stamp_it, LFRC) are covered by the search only',
 }
